@@ -540,6 +540,36 @@ fn generate_dummy_nullifier_pre_images_for_slots(n_slots: usize) -> Vec<[F; 4]> 
         .collect()
 }
 
+/// Verification hooks: read access to a committed prover's partial witness and
+/// circuit data (so the committed witness can be evaluated against every gate
+/// constraint without proving), and forwarders to the crate-private commit
+/// preflight / template validator.
+#[cfg(quantus_network_qp_zk_circuits_verif)]
+impl PrivateBatchProver {
+    pub fn verif_partial_witness(&self) -> &PartialWitness<F> {
+        &self.partial_witness
+    }
+
+    pub fn verif_circuit_data(&self) -> &ProverCircuitData<F, C, D> {
+        &self.circuit_data
+    }
+}
+
+#[cfg(quantus_network_qp_zk_circuits_verif)]
+pub fn verif_ensure_leaf_batch_compatible(
+    proofs: &[ProofWithPublicInputs<F, C, D>],
+) -> Result<()> {
+    ensure_leaf_batch_compatible(proofs)
+}
+
+#[cfg(quantus_network_qp_zk_circuits_verif)]
+pub fn verif_verify_dummy_leaf_template(
+    template: &ProofWithPublicInputs<F, C, D>,
+    leaf_verifier: &VerifierCircuitData<F, C, D>,
+) -> Result<()> {
+    verify_dummy_leaf_template(template, leaf_verifier)
+}
+
 #[cfg(test)]
 mod tests {
     use super::*;
